@@ -132,7 +132,7 @@ class Models:
                      "type", "reversed", "sorted", "tuple", "list", "str", "format", "iter",
                      "next", "map", "range", "zip", "enumerate", "all", "any", "bool", "repr",
                      "float", "issubclass", "getattr", "id", "callable", "builtin_sum", "dict",
-                     "set", "frozenset", "object"}
+                     "set", "frozenset", "object", "filter"}
 
     def global_name(self, module, name, node):
         r = self.prog.resolve_global(module, name)
@@ -730,7 +730,26 @@ class Models:
                         if ar.exc.name != "KeyError":
                             raise
                         return args[1] if len(args) > 1 else NONE
-                if attr in ("setdefault", "pop", "update", "clear", "popitem"):
+                if attr == "setdefault" and args:
+                    # may store: recorded as a store of (key, default)
+                    v = args[1] if len(args) > 1 else NONE
+                    self.st.effects.append(("setitem", g, args[0], v, self.where(n)))
+                    return v
+                if attr == "update":
+                    for a in args:
+                        pairs = None
+                        if type(a).__name__ == "DictV":
+                            pairs = list(a.items)
+                        else:
+                            seq = self.iterate(a, n)
+                            if seq is not None and all(isinstance(x, TupleV) and len(x.items) == 2 for x in seq):
+                                pairs = [tuple(x.items) for x in seq]
+                        if pairs is None:
+                            self.I.unsupported(n, f"{g.name}.update with an opaque argument")
+                        for k_, v_ in pairs:
+                            self.st.effects.append(("setitem", g, k_, v_, self.where(n)))
+                    return NONE
+                if attr in ("pop", "clear", "popitem"):
                     return OpaqueV(f"{g.name}.{attr}")
                 self.I.unsupported(n, f"map method {attr}")
             return NativeV(mapcall, f"{obj.name}.{attr}")
@@ -742,7 +761,11 @@ class Models:
                 return Num(RF.atom(("pw10", "prefix:" + obj.name)), "dec")
             return OpaqueV(f"siprefix.{attr}")
         if isinstance(obj, OpaqueV):
-            return OpaqueV(f"{obj.tag}.{attr}")
+            o = OpaqueV(f"{obj.tag}.{attr}")
+            o.attr_of = obj
+            if "date" in (getattr(obj, "kinds", None) or ()) and attr in ("year", "month", "day"):
+                o.kinds = {"int"}
+            return o
         if isinstance(obj, ConvV):
             return OpaqueV(f"conv.{attr}")
         if isinstance(obj, NTupleV):
@@ -912,6 +935,8 @@ class Models:
         def method(args, kwargs, n):
             if attr in ("lstrip", "rstrip", "strip"):
                 return StrV(None, f"{v.tag}.{attr}")
+            if attr in ("split", "rsplit", "partition", "rpartition"):
+                self.st.effects.append(("strsplit", v, attr, list(args), self.where(n)))
             if attr in ("split", "rsplit"):
                 lv = ListV(None, tag="split", opaque_elem=None)
                 lv.split_of = (v, args)
@@ -928,10 +953,22 @@ class Models:
                 s = StrV(None, "formatted")
                 s.fmt = (v, args, kwargs)
                 return s
-            if attr in ("isdigit", "startswith", "endswith"):
+            if attr in ("isdigit", "startswith", "endswith", "isalpha", "isalnum", "isspace", "isnumeric", "isdecimal",
+                        "isupper", "islower", "isidentifier", "isascii"):
                 return OpaqueV("strpred")
             if attr == "join":
                 return StrV(None, "joined")
+            if attr in ("replace", "lower", "upper", "title", "capitalize", "casefold", "center", "ljust", "rjust",
+                        "zfill", "expandtabs", "removeprefix", "removesuffix", "translate", "swapcase"):
+                # pure text transformations: concrete when everything is concrete, otherwise some text
+                if v.const is not None and all(isinstance(a, StrV) and a.const is not None for a in args) and not kwargs:
+                    try:
+                        return StrV(getattr(v.const, attr)(*[a.const for a in args]))
+                    except Exception:
+                        pass
+                return StrV(None, f"{v.tag}.{attr}")
+            if attr in ("find", "rfind", "index", "rindex", "count"):
+                return Num(RF.atom(("sym", self.st.fresh("strpos"))), "int")
             self.I.unsupported(n, f"str method {attr}")
         return NativeV(method, f"str.{attr}")
 
@@ -946,6 +983,9 @@ class Models:
 
     def list_attr(self, v: ListV, attr, node):
         def method(args, kwargs, n):
+            if attr == "pop" and len(args) == 1 and isinstance(args[0], Num) and self.st.norm(args[0].rf).is_const() \
+                    and self.st.norm(args[0].rf).const_value() == -1:
+                args = []       # pop(-1) is pop()
             self.st.effects.append(("listop", v, attr, args, self.where(n)))
             if attr == "append":
                 if v.items is not None:
